@@ -717,7 +717,18 @@ func ownerIs(fa *ssa.FieldAddr, named *types.Named) bool {
 	if p, ok := t.Underlying().(*types.Pointer); ok {
 		t = p.Elem()
 	}
-	return t == named
+	if t == named {
+		return true
+	}
+	// a field of a struct that is itself a (possibly embedded) struct-valued field of `named`
+	if inner, ok := stripConv(fa.X).(*ssa.FieldAddr); ok {
+		if f := fieldOf(inner); f != nil {
+			if _, isStruct := f.Type().Underlying().(*types.Struct); isStruct {
+				return ownerIs(inner, named)
+			}
+		}
+	}
+	return false
 }
 
 // AnchorReport lists resolved anchors for the evidence.
@@ -792,4 +803,38 @@ func (m *Model) forwardsToRunner(f *ssa.Function) bool {
 		}
 	})
 	return found
+}
+
+// flatField: a leaf field of a struct with struct-valued fields flattened one level; idx is the
+// field index used in locations (nested: nestIdx(outer, inner)).
+type flatField struct {
+	v   *types.Var
+	idx int
+}
+
+func nestIdx(outer, inner int) int { return (outer+1)*1024 + inner }
+
+func flatFields(st *types.Struct) []flatField {
+	var out []flatField
+	for i := 0; i < st.NumFields(); i++ {
+		f := st.Field(i)
+		if in, ok := f.Type().Underlying().(*types.Struct); ok && f.Pkg() != nil && in.NumFields() > 0 && sameNamedPkg(f) {
+			for j := 0; j < in.NumFields(); j++ {
+				out = append(out, flatField{in.Field(j), nestIdx(i, j)})
+			}
+			continue
+		}
+		out = append(out, flatField{f, i})
+	}
+	return out
+}
+
+// sameNamedPkg: the field's struct type is declared in the field's own package (time.Time and
+// the like stay leaves).
+func sameNamedPkg(f *types.Var) bool {
+	n, ok := f.Type().(*types.Named)
+	if !ok {
+		return true // anonymous struct type
+	}
+	return n.Obj().Pkg() == f.Pkg()
 }
